@@ -74,6 +74,13 @@ Example back_cover_partial_nonvacuous :
   o = Done /\ traces s = [[4; 3; 1]] /\ silent s = [] /\ closed_runb g_direct cfg_eager s = true.
 Proof. exact direct_run. Qed.
 
+(** the same witness with the tuple repair switched on in the model: both origins are on traces and the hypotheses of
+    [back_cover_partial] hold *)
+Example back_cover_partial_tuple_repaired :
+  let '(s, o) := back no_oracle g_tuple cfg_fix_tuple 100%nat empty_pei 1 in
+  o = Done /\ traces s = [[6; 4; 3; 1]; [7; 5; 3; 1]] /\ silent s = [] /\ closed_runb g_tuple cfg_fix_tuple s = true.
+Proof. exact tuple_fixed_run. Qed.
+
 (** [leaf_reports_refuted]: a global that is only read (no write location), on-demand mode: the read access is a leaf
     of the DFS that records nothing, so no trace at all is reported although the node is reached; eagerly the same
     graph yields the trace. *)
